@@ -199,6 +199,18 @@ pub fn run(ctx: &Ctx) -> Outcome {
     o.violations.push(Violation { property: prop.clone(), clause: clause.clone(), signature: sig, description: detail.clone(), artefact: art, count: *count });
   }
   if let Some(e) = &total.machinery { o.machinery_error = Some(e.clone()); }
+  // Engine R: the same property below the Driver seam - the real driver, readers, writer and poll registry on real descriptors
+  if matches!(id, "C10" | "C12" | "C20") {
+    let t = std::time::Instant::now();
+    let r = crate::engine_r::run_family(ctx, id);
+    o.cov("real_descriptor_tier", json!({"what": "the unmodified RealDriver + loop (hook run_real_driver_on_fds) over socket pairs (keyboard, tablet switch) and a pipe (virtual keyboard); a scenario = a list of write() calls of whole input_event records, stepped: after each write the feeder waits until the loop thread is blocked in epoll_wait with both inputs drained (read from /proc/self/task/<tid>), then collects what was written; at most one fault (virtual keyboard full = EAGAIN from then on, virtual keyboard closed = EPIPE, a device failing with ECONNRESET); every scenario ends with the keyboard failing; oracle = the mapper's outputs per step / the loop returns the error at the step where the fault bites and writes nothing afterwards",
+      "scenarios": r.runs, "writes_to_devices": r.steps, "distinct_observations": r.distinct_outputs.len(), "scenarios_in_which_the_fault_ended_the_loop_early": r.faults_bitten, "note": r.note, "wall_s": t.elapsed().as_secs_f64()}));
+    for ((prop, clause), (count, detail, art)) in &r.viols {
+      o.violations.push(Violation { property: prop.clone(), clause: clause.clone(), signature: None, description: detail.clone(), artefact: art.clone(), count: *count });
+    }
+    if let Some(e) = &r.machinery { o.machinery_error = Some(e.clone()); }
+    if r.note.is_none() && r.runs == 0 { o.machinery_error = Some("real-descriptor tier ran no scenario".into()); }
+  }
   if o.machinery_error.is_none() && o.violations.is_empty() {
     let need: Vec<&str> = match id {
       "C10" => vec!["step_outputs_written", "wakeups_with_several_events", "executions_ending_with_device_gone"],
